@@ -7,6 +7,7 @@ Import ListNotations.
 From JB Require Import Constants Bytes Utf8 Num NumProofs Value Codec Order OrderProofs CodecProofs RoundtripProofs TreeOps
   JsonText SetOps Dispatch DispatchProofs MiscProofs Walk WalkProofs Iter IterProofs Builder BuilderProofs CompareWalk
   CompareWalkProofs ContainWalk ContainWalkProofs SetWalk.
+From JB Require Import BufSt EditStProofs.
 Open Scope N_scope.
 Set Default Timeout 120.
 
@@ -101,7 +102,7 @@ Qed.
 Theorem array_distinct_b_enc a buf : wfb a = true -> wf_size (array_distinct_t a) = true ->
   array_distinct_b (enc a) buf = Ok (buf ++ enc (array_distinct_t a)).
 Proof.
-  intros W Hr. unfold array_distinct_b, array_distinct_t in *.
+  intros W Hr. rewrite ?array_distinct_b_eq in *. unfold array_distinct_t in *.
   destruct (doc_hdr a W) as (h & Rh & Th). rewrite Rh, Th.
   assert (Cases : (exists l, a = VArr l) \/ (forall l, a <> VArr l)) by (destruct a; try (right; intros l0 E; discriminate E); left; eexists; reflexivity).
   destruct Cases as [[l ->]|Hn].
@@ -299,7 +300,7 @@ Qed.
 Theorem array_intersection_b_enc a b buf : wfb a = true -> wfb b = true -> wf_size (array_intersection_t a b) = true ->
   array_intersection_b (enc a) (enc b) buf = Ok (buf ++ enc (array_intersection_t a b)).
 Proof.
-  intros Wa Wb Hr. unfold array_intersection_b, array_intersection_t in *.
+  intros Wa Wb Hr. rewrite ?array_intersection_b_eq in *. unfold array_intersection_t in *.
   destruct (doc_hdr a Wa) as (h1 & R1 & T1). destruct (doc_hdr b Wb) as (h2 & R2 & T2). rewrite R1, R2.
   destruct (count_items_enc b h2 Wb R2 T2) as (m & Em & Rm & Pm). rewrite Em. cbn [bind]. rewrite T1.
   pose proof (items_wf b Wb) as Wm.
@@ -319,7 +320,7 @@ Qed.
 Theorem array_except_b_enc a b buf : wfb a = true -> wfb b = true -> wf_size (array_except_t a b) = true ->
   array_except_b (enc a) (enc b) buf = Ok (buf ++ enc (array_except_t a b)).
 Proof.
-  intros Wa Wb Hr. unfold array_except_b, array_except_t in *.
+  intros Wa Wb Hr. rewrite ?array_except_b_eq in *. unfold array_except_t in *.
   destruct (doc_hdr a Wa) as (h1 & R1 & T1). destruct (doc_hdr b Wb) as (h2 & R2 & T2). rewrite R1, R2.
   destruct (count_items_enc b h2 Wb R2 T2) as (m & Em & Rm & Pm). rewrite Em. cbn [bind]. rewrite T1.
   pose proof (items_wf b Wb) as Wm.
@@ -439,19 +440,19 @@ Proof. intros W T. unfold as_jsonb. rewrite (is_jsonb_enc a W T). reflexivity. Q
 
 Theorem array_distinct_w_enc a buf : wfb a = true -> top_ok a -> wf_size (array_distinct_t a) = true ->
   array_distinct_w (enc a) buf = Ok (buf ++ enc (array_distinct_t a)).
-Proof. intros W T Hr. unfold array_distinct_w. rewrite (as_jsonb_enc a W T). cbn [bind]. apply array_distinct_b_enc; assumption. Qed.
+Proof. intros W T Hr. rewrite ?array_distinct_w_eq. rewrite (as_jsonb_enc a W T). cbn [bind]. apply array_distinct_b_enc; assumption. Qed.
 Theorem array_intersection_w_enc a b buf : wfb a = true -> top_ok a -> wfb b = true -> top_ok b ->
   wf_size (array_intersection_t a b) = true ->
   array_intersection_w (enc a) (enc b) buf = Ok (buf ++ enc (array_intersection_t a b)).
 Proof.
-  intros Wa Ta Wb Tb Hr. unfold array_intersection_w. rewrite (as_jsonb_enc a Wa Ta), (as_jsonb_enc b Wb Tb). cbn [bind].
+  intros Wa Ta Wb Tb Hr. rewrite ?array_intersection_w_eq. rewrite (as_jsonb_enc a Wa Ta), (as_jsonb_enc b Wb Tb). cbn [bind].
   apply array_intersection_b_enc; assumption.
 Qed.
 Theorem array_except_w_enc a b buf : wfb a = true -> top_ok a -> wfb b = true -> top_ok b ->
   wf_size (array_except_t a b) = true ->
   array_except_w (enc a) (enc b) buf = Ok (buf ++ enc (array_except_t a b)).
 Proof.
-  intros Wa Ta Wb Tb Hr. unfold array_except_w. rewrite (as_jsonb_enc a Wa Ta), (as_jsonb_enc b Wb Tb). cbn [bind].
+  intros Wa Ta Wb Tb Hr. rewrite ?array_except_w_eq. rewrite (as_jsonb_enc a Wa Ta), (as_jsonb_enc b Wb Tb). cbn [bind].
   apply array_except_b_enc; assumption.
 Qed.
 Theorem array_overlap_w_enc a b : wfb a = true -> top_ok a -> wfb b = true -> top_ok b ->
@@ -500,19 +501,19 @@ Proof.
 Qed.
 Theorem array_distinct_w_forms t a buf : wfb a = true -> stands_for t a -> wf_size (array_distinct_t a) = true ->
   array_distinct_w t buf = Ok (buf ++ enc (array_distinct_t a)).
-Proof. intros W S Hr. unfold array_distinct_w. rewrite (as_jsonb_stands t a W S). cbn [bind]. apply array_distinct_b_enc; assumption. Qed.
+Proof. intros W S Hr. rewrite ?array_distinct_w_eq. rewrite (as_jsonb_stands t a W S). cbn [bind]. apply array_distinct_b_enc; assumption. Qed.
 Theorem array_intersection_w_forms t u a b buf : wfb a = true -> wfb b = true -> stands_for t a -> stands_for u b ->
   wf_size (array_intersection_t a b) = true ->
   array_intersection_w t u buf = Ok (buf ++ enc (array_intersection_t a b)).
 Proof.
-  intros Wa Wb Sa Sb Hr. unfold array_intersection_w. rewrite (as_jsonb_stands t a Wa Sa), (as_jsonb_stands u b Wb Sb). cbn [bind].
+  intros Wa Wb Sa Sb Hr. rewrite ?array_intersection_w_eq. rewrite (as_jsonb_stands t a Wa Sa), (as_jsonb_stands u b Wb Sb). cbn [bind].
   apply array_intersection_b_enc; assumption.
 Qed.
 Theorem array_except_w_forms t u a b buf : wfb a = true -> wfb b = true -> stands_for t a -> stands_for u b ->
   wf_size (array_except_t a b) = true ->
   array_except_w t u buf = Ok (buf ++ enc (array_except_t a b)).
 Proof.
-  intros Wa Wb Sa Sb Hr. unfold array_except_w. rewrite (as_jsonb_stands t a Wa Sa), (as_jsonb_stands u b Wb Sb). cbn [bind].
+  intros Wa Wb Sa Sb Hr. rewrite ?array_except_w_eq. rewrite (as_jsonb_stands t a Wa Sa), (as_jsonb_stands u b Wb Sb). cbn [bind].
   apply array_except_b_enc; assumption.
 Qed.
 Theorem array_overlap_w_forms t u a b : wfb a = true -> wfb b = true -> stands_for t a -> stands_for u b ->
@@ -539,16 +540,16 @@ Theorem set_walkers_fuel bs1 bs2 buf :
   array_except_b bs1 bs2 buf <> Err EFuel /\ array_overlap_b bs1 bs2 <> Err EFuel.
 Proof.
   repeat split.
-  - unfold array_distinct_b. destruct (read_u32 bs1 0) as [h|]; [|apply nf_other].
+  - rewrite ?array_distinct_b_eq. destruct (read_u32 bs1 0) as [h|]; [|apply nf_other].
     apply nf_bind; [|intros; apply nf_ok]. destruct (hdr_type h =? ARRAY_CONTAINER_TAG).
     + apply iterate_array_nf; [intros; apply nf_ok|]. intros s j p _. destruct (iset_mem (j, p) (fst s)); apply nf_ok.
     + apply nf_bind; [apply single_item_nf|intros; apply nf_ok].
-  - unfold array_intersection_b. destruct (read_u32 bs1 0) as [h1|]; [|apply nf_other]. destruct (read_u32 bs2 0) as [h2|]; [|apply nf_other].
+  - rewrite ?array_intersection_b_eq. destruct (read_u32 bs1 0) as [h1|]; [|apply nf_other]. destruct (read_u32 bs2 0) as [h2|]; [|apply nf_other].
     apply nf_bind; [apply count_items_nf|]. intros m _. apply nf_bind; [|intros; apply nf_ok].
     destruct (hdr_type h1 =? ARRAY_CONTAINER_TAG).
     + apply iterate_array_nf; [intros; apply nf_ok|]. intros s j p _. destruct (imap_take (j, p) (fst s)); apply nf_ok.
     + apply nf_bind; [apply single_item_nf|intros; apply nf_ok].
-  - unfold array_except_b. destruct (read_u32 bs1 0) as [h1|]; [|apply nf_other]. destruct (read_u32 bs2 0) as [h2|]; [|apply nf_other].
+  - rewrite ?array_except_b_eq. destruct (read_u32 bs1 0) as [h1|]; [|apply nf_other]. destruct (read_u32 bs2 0) as [h2|]; [|apply nf_other].
     apply nf_bind; [apply count_items_nf|]. intros m _. apply nf_bind; [|intros; apply nf_ok].
     destruct (hdr_type h1 =? ARRAY_CONTAINER_TAG).
     + apply iterate_array_nf; [intros; apply nf_ok|]. intros s j p _. destruct (imap_take (j, p) (fst s)); apply nf_ok.
